@@ -128,6 +128,28 @@ def deep_copy_of_a_collection_is_equal_independent_and_freshly_numbered(g0: int,
 
 
 @lemma(gen=GEN)
+def deep_copy_reaches_the_mutable_values_held_inside_a_tuple(g0: int, s0: int, a0: int, f0: float, f1: float, n: float, d0: float, d1: float, x: float, viaModule: bool):
+    """a parameter whose value is a TUPLE of mutable things (an array, a list, a dict - e.g. per-pin data kept as a
+    tuple): the tuple itself cannot change, but what it holds can - the deep copy owns its own array / list / dict, so an
+    in-place change on either side does not show on the other."""
+    assume(s0 <= g0)
+    mk_class()
+    pcmod.GLOBAL_SERIAL_NUM = g0
+    pc = mk_coll(s0, a0, 1.0, (np.array([d0, d1]), [f0, f1], {"U235": n}), None, None, None)
+    c = copy.deepcopy(pc) if viaModule else pc.__deepcopy__({})
+    assert len(c.mgFlux) == 3 and c.mgFlux[0][1] == d1 and c.mgFlux[1][0] == f0 and c.mgFlux[2]["U235"] == n, "equal contents"
+    assert not same(c.mgFlux[0], pc.mgFlux[0]) and not same(c.mgFlux[1], pc.mgFlux[1]) and not same(c.mgFlux[2], pc.mgFlux[2]), "own array, list and dict"
+    c.mgFlux[0][0] = x
+    c.mgFlux[1].append(x)
+    c.mgFlux[2]["U235"] = x
+    assert pc.mgFlux[0][0] == d0 and len(pc.mgFlux[1]) == 2 and pc.mgFlux[2]["U235"] == n, "changes of the copy do not show in the original"
+    pc.mgFlux[0][1] = x + 1
+    pc.mgFlux[1][0] = x + 1
+    pc.mgFlux[2]["PU239"] = x + 1
+    assert c.mgFlux[0][1] == d1 and c.mgFlux[1][0] == f0 and len(c.mgFlux[2]) == 1, "changes of the original do not show in the copy"
+
+
+@lemma(gen=GEN)
 def constructor_hands_out_fresh_serial_numbers_and_defaults(g0: int, s0: int):
     """ParameterCollection.__init__ without a state (what every ArmiObject constructor runs): every parameter has its
     default, the serial number is the successor of the counter; two constructions in a row get different numbers."""
